@@ -519,7 +519,23 @@ class MonC10(Monitor):
                     view_on and len(s.shell_end_exp) == len(s.points)) else 0
                 counts.append(len(pts) - start)
             enough = bool(len(counts) and min(counts) >= r['n_shell'])
-            pred = bool(s.explored and enough and s.n_eff >= r['n_eff'])
+            # effective sample size of the posterior weights themselves
+            n_eff_ind = float(s.n_eff)
+            if s.explored and enough:
+                try:
+                    lw = np.asarray(s.posterior()[1], dtype=float)
+                    if len(lw) and np.all(np.isfinite(lw[lw > -np.inf])):
+                        kish = float(np.exp(-logsumexp(2 * lw)))
+                        if np.isfinite(kish):
+                            n_eff_ind = kish
+                except Exception:
+                    pass
+            # the sampler's own figure decides ties at the threshold; the
+            # weights decide if the two disagree by more than rounding
+            n_eff_use = float(s.n_eff)
+            if abs(n_eff_ind - n_eff_use) > 1e-6 * max(1.0, abs(n_eff_ind)):
+                n_eff_use = n_eff_ind
+            pred = bool(s.explored and enough and n_eff_use >= r['n_eff'])
             if bool(c['ret']) != pred:
                 bad('return_value', 'run() returned {} but explored={}, '
                     'smallest number of samples in a shell (current view)={}, '
